@@ -59,10 +59,16 @@ class Val:
 class Env:
     kinds: Dict[str, str] = field(default_factory=dict)
     pending: Dict[str, str] = field(default_factory=dict)  # output arrays awaiting a map loop: name -> length code
+    pw: bool = False            # pointwise mode: a vector name denotes its element at index `i_` (NumPy elementwise expressions)
+    pw_mask: Optional[str] = None   # source text of the mask of a masked store: `X[mask]` denotes the element of X
 
     def copy(self) -> "Env":
-        return Env(dict(self.kinds), dict(self.pending))
+        return Env(dict(self.kinds), dict(self.pending), self.pw, self.pw_mask)
 
+
+VEC_ELEM = {"A": "R", "AB": "B", "AZ": "Z"}        # NumPy vectors: element kind
+VEC_OF = {"R": "A", "B": "AB", "Z": "AZ", "N": "AZ"}
+VEC_TY = {"A": "Arr α", "AB": "Arr Bool", "AZ": "Arr Int"}
 
 UNARY_CALLS = {
     "cos": "RealLike.cos", "sin": "RealLike.sin", "sqrt": "RealLike.sqrt", "exp": "RealLike.exp",
@@ -85,6 +91,8 @@ class FnTranslator:
         self.prelude: List[str] = []
         self.uses_fuel = False
         self.stop_after_while: Optional[List[str]] = None
+        self.lv: Dict[str, List[Tuple[str, str]]] = {}      # Python lists of vectors: name -> [(lean name, kind)]
+        self.vector_mode = False    # whole-array NumPy statements (elementwise expressions, masked stores, np.select)
 
     # ---------- expressions ----------
     def expr(self, e: ast.AST, env: Env) -> Val:
@@ -99,6 +107,8 @@ class FnTranslator:
         if isinstance(e, ast.Name):
             if e.id not in env.kinds:
                 raise Unsupported(f"line {e.lineno}: unknown variable {e.id}")
+            if env.pw and env.kinds[e.id] in VEC_ELEM:
+                return Val(f"({e.id}.get i_)", VEC_ELEM[env.kinds[e.id]])
             return Val(e.id, env.kinds[e.id])
         if isinstance(e, ast.UnaryOp) and isinstance(e.op, ast.Not):
             v = self.expr(e.operand, env)
@@ -147,7 +157,8 @@ class FnTranslator:
             return Val(f"(if {c.code} then {a.code} else {b.code})", a.kind)
         raise Unsupported(f"line {getattr(e, 'lineno', '?')}: expression {type(e).__name__}")
 
-    LT_ALL = {"R": "α", "N": "Nat", "Z": "Int", "B": "Bool", "LR": "List α", "LZ": "List Int", "A": "Arr α", "A2": "Arr2 α", "IA": "Arr Nat"}
+    LT_ALL = {"R": "α", "N": "Nat", "Z": "Int", "B": "Bool", "LR": "List α", "LZ": "List Int", "A": "Arr α", "A2": "Arr2 α", "IA": "Arr Nat",
+              "AB": "Arr Bool", "AZ": "Arr Int"}
 
     def coerce(self, v: Val, kind: str, lineno: int = 0) -> Val:
         if v.kind == kind:
@@ -220,6 +231,16 @@ class FnTranslator:
         return Val(f"(decide (({a.code} : Int) {sym} ({b.code} : Int)))", "B")
 
     def subscript(self, e: ast.Subscript, env: Env) -> Val:
+        if env.pw and env.pw_mask is not None and ast.unparse(e.slice) == env.pw_mask:
+            return self.expr(e.value, env)          # X[mask] inside a masked store: the element of X at the stored index
+        if (self.vector_mode and isinstance(e.value, ast.Name) and env.kinds.get(e.value.id) in ("A", "AZ")
+                and not self.mentions_vector(e.slice, env)):
+            e0 = env.copy()
+            e0.pw = False
+            idx = self.expr(e.slice, e0)
+            if idx.kind != "N":
+                raise Unsupported(f"line {e.lineno}: non-natural index")
+            return Val(f"({e.value.id}.get {idx.code})", VEC_ELEM[env.kinds[e.value.id]])
         base = self.expr(e.value, env)
         if base.kind in ("A", "IA"):
             idx = self.expr(e.slice, env)
@@ -263,6 +284,48 @@ class FnTranslator:
         if name in UNARY_CALLS and len(e.args) == 1:
             v = self.to_real(self.expr(e.args[0], env))
             return Val(f"({UNARY_CALLS[name]} {v.code})", "R")
+        np_call = isinstance(f, ast.Attribute) and isinstance(f.value, ast.Name) and f.value.id in ("np", "_np")
+        if np_call and name == "searchsorted" and len(e.args) == 2 and isinstance(e.args[0], ast.Name):
+            kws = {k.arg: ast.unparse(k.value) for k in e.keywords}
+            if kws != {"side": "'left'"} or env.kinds.get(e.args[0].id) != "A":
+                raise Unsupported(f"line {e.lineno}: np.searchsorted form")
+            e0 = env.copy()
+            e0.pw = False
+            v = self.to_real(self.expr(e.args[1], e0))
+            return Val(f"(Np.searchsortedLeft {e.args[0].id} {v.code})", "N")
+        if name == "len" and len(e.args) == 1 and isinstance(e.args[0], ast.Name) and env.kinds.get(e.args[0].id) in VEC_ELEM:
+            return Val(f"{e.args[0].id}.n", "N")
+        if env.pw and np_call and name == "round" and len(e.args) == 1:
+            v = self.to_real(self.expr(e.args[0], env))          # np.round keeps the float dtype
+            return Val(f"((RealLike.ofInt (RealLike.roundEven {v.code})) : α)", "R")
+        if env.pw and np_call and name == "clip" and len(e.args) == 3:
+            x, lo, hi = (self.to_real(self.expr(a, env)) for a in e.args)   # np.clip = minimum(maximum(x, lo), hi)
+            return Val(f"(RealLike.min (RealLike.max {x.code} {lo.code}) {hi.code})", "R")
+        if env.pw and np_call and name in ("minimum", "maximum") and len(e.args) == 2:
+            a, b = self.expr(e.args[0], env), self.expr(e.args[1], env)
+            if a.kind in ("N", "Z") and b.kind in ("N", "Z"):
+                op = "≤" if name == "minimum" else "≥"
+                return Val(f"(if ({a.code} : Int) {op} ({b.code} : Int) then ({a.code} : Int) else ({b.code} : Int))", "Z")
+            a, b = self.to_real(a), self.to_real(b)
+            return Val(f"(RealLike.{'min' if name == 'minimum' else 'max'} {a.code} {b.code})", "R")
+        if env.pw and np_call and name == "select" and len(e.args) == 2:
+            kws = {k.arg: k.value for k in e.keywords}
+            if set(kws) != {"default"} or not all(isinstance(a, ast.Name) and a.id in self.lv for a in e.args):
+                raise Unsupported(f"line {e.lineno}: np.select form")
+            conds, vals = self.lv[e.args[0].id], self.lv[e.args[1].id]
+            if len(conds) != len(vals) or any(k != "AB" for _, k in conds) or any(k != "A" for _, k in vals):
+                raise Unsupported(f"line {e.lineno}: np.select lists")
+            code = self.to_real(self.expr(kws["default"], env)).code
+            for (c, _), (v, _) in reversed(list(zip(conds, vals))):      # first true condition wins
+                code = f"(if ({c}.get i_) then ({v}.get i_) else {code})"
+            return Val(code, "R")
+        if env.pw and isinstance(f, ast.Attribute) and f.attr == "astype" and len(e.args) == 1 and ast.unparse(e.args[0]) in ("np.int64", "int"):
+            v = self.expr(f.value, env)
+            if v.kind in ("N", "Z"):
+                return v
+            if v.kind == "R":
+                return Val(f"(RealLike.trunc {v.code})", "Z")
+            raise Unsupported(f"line {e.lineno}: astype of {v.kind}")
         if name == "int" and len(e.args) == 1:
             v = self.expr(e.args[0], env)
             if v.kind in ("N", "Z"):
@@ -317,6 +380,60 @@ class FnTranslator:
             return Val(f"({info.lean_name} " + " ".join(codes) + ")", info.ret_kind)
         raise Unsupported(f"line {e.lineno}: call {ast.unparse(e.func)}")
 
+    # ---------- NumPy vector expressions ----------
+    def mentions_vector(self, e: ast.AST, env: Env) -> bool:
+        """does the expression denote / combine whole vectors (as opposed to reading single elements)?"""
+        if not self.vector_mode:
+            return False
+        if isinstance(e, ast.Name):
+            return env.kinds.get(e.id) in VEC_ELEM or e.id in getattr(self, "lv", {})
+        if isinstance(e, ast.Subscript):
+            if isinstance(e.value, ast.Name) and env.kinds.get(e.value.id) in VEC_ELEM:
+                return self.mentions_vector(e.slice, env)          # X[i] is a scalar, X[mask] a vector
+            return self.mentions_vector(e.value, env) or self.mentions_vector(e.slice, env)
+        if isinstance(e, ast.Call):
+            fu = ast.unparse(e.func)
+            if fu in ("len", "np.searchsorted"):
+                return False
+            if fu == "np.logspace":
+                return True
+            parts = list(e.args) + [k.value for k in e.keywords]
+            if isinstance(e.func, ast.Attribute) and not isinstance(e.func.value, ast.Name):
+                parts.append(e.func.value)
+            elif isinstance(e.func, ast.Attribute) and isinstance(e.func.value, ast.Name) and e.func.value.id not in ("np", "math", "_np"):
+                parts.append(e.func.value)
+            return any(self.mentions_vector(x, env) for x in parts)
+        return any(self.mentions_vector(c, env) for c in ast.iter_child_nodes(e) if isinstance(c, ast.expr))
+
+    def vec_len(self, e: ast.AST, env: Env) -> str:
+        for n in ast.walk(e):
+            if isinstance(n, ast.Name) and env.kinds.get(n.id) in VEC_ELEM:
+                return f"{n.id}.n"
+            if isinstance(n, ast.Name) and n.id in self.lv:
+                return f"{self.lv[n.id][0][0]}.n"
+        raise Unsupported(f"line {getattr(e, 'lineno', '?')}: vector expression without a vector operand")
+
+    def vector_value(self, e: ast.AST, env: Env) -> Val:
+        """whole-vector expression -> a (memoised) Arr"""
+        if isinstance(e, ast.Call) and ast.unparse(e.func) == "np.logspace":
+            if len(e.args) != 3 or e.keywords:
+                raise Unsupported(f"line {e.lineno}: np.logspace form")
+            a, b = (self.to_real(self.expr(x, env)) for x in e.args[:2])
+            n = self.expr(e.args[2], env)
+            if n.kind == "Z":
+                n = Val(f"(Int.toNat {n.code})", "N")
+            if n.kind != "N":
+                raise Unsupported(f"line {e.lineno}: np.logspace count")
+            return Val(f"(Arr.memo (Np.logspace {a.code} {b.code} {n.code}))", "A")
+        ln = self.vec_len(e, env)
+        e2 = env.copy()
+        e2.pw = True
+        v = self.expr(e, e2)
+        if v.kind not in VEC_OF:
+            raise Unsupported(f"line {getattr(e, 'lineno', '?')}: vector element kind {v.kind}")
+        code = v.code if v.kind != "N" else f"(({v.code} : Nat) : Int)"
+        return Val(f"(Arr.memo ⟨{ln}, fun i_ => {code}⟩)", VEC_OF[v.kind])
+
     # ---------- statements ----------
     def assigned_names(self, stmts: List[ast.stmt]) -> List[str]:
         out: List[str] = []
@@ -325,8 +442,13 @@ class FnTranslator:
                 if isinstance(n, (ast.Assign, ast.AugAssign)):
                     tgts = n.targets if isinstance(n, ast.Assign) else [n.target]
                     for t in tgts:
-                        if isinstance(t, ast.Name) and t.id not in out:
-                            out.append(t.id)
+                        for t1 in (t.elts if isinstance(t, ast.Tuple) else [t]):
+                            if isinstance(t1, ast.Name) and t1.id not in out:
+                                out.append(t1.id)
+                # `lst.append(x)` updates lst
+                if (isinstance(n, ast.Call) and isinstance(n.func, ast.Attribute) and n.func.attr == "append"
+                        and isinstance(n.func.value, ast.Name) and n.func.value.id not in out):
+                    out.append(n.func.value.id)
         return out
 
     def stores(self, stmts: List[ast.stmt]) -> List[ast.Assign]:
@@ -371,6 +493,42 @@ class FnTranslator:
                 out += f"{ind}let {t.id} : α := {s.value.value.id}.get {row.code} {c}\n"
                 env.kinds[t.id] = "R"
             return out + self.block(rest, env, ind, final)
+        if (isinstance(s, ast.Assign) and len(s.targets) == 1 and isinstance(s.targets[0], ast.Subscript)
+                and isinstance(s.targets[0].value, ast.Name) and env.kinds.get(s.targets[0].value.id) in VEC_ELEM
+                and s.targets[0].value.id not in env.pending and self.mentions_vector(s.targets[0].slice, env)):
+            # masked store  X[mask] = value  (value may read Y[mask] with the same mask, or be a scalar)
+            tgt = s.targets[0]
+            name = tgt.value.id
+            e2 = env.copy()
+            e2.pw = True
+            m = self.expr(tgt.slice, e2)
+            if m.kind != "B":
+                raise Unsupported(f"line {s.lineno}: store through a non-boolean index vector")
+            e2.pw_mask = ast.unparse(tgt.slice)
+            v = self.expr(s.value, e2)
+            ek = VEC_ELEM[env.kinds[name]]
+            v = self.coerce(v, ek, s.lineno)
+            code = f"{ind}let {name} : {VEC_TY[env.kinds[name]]} := Arr.memo ⟨{name}.n, fun i_ => if {m.code} then {v.code} else ({name}.get i_)⟩\n"
+            return code + self.block(rest, env, ind, final)
+        if (isinstance(s, ast.Assign) and len(s.targets) == 1 and isinstance(s.targets[0], ast.Name) and isinstance(s.value, ast.List)
+                and s.value.elts and all(self.mentions_vector(x, env) for x in s.value.elts)):
+            # a Python list of vectors (np.select's conditions / choices): one named vector per element
+            name = s.targets[0].id
+            out = ""
+            items = []
+            for k, x in enumerate(s.value.elts):
+                v = self.vector_value(x, env)
+                out += f"{ind}let {name}__{k} : {VEC_TY[v.kind]} := {v.code}\n"
+                items.append((f"{name}__{k}", v.kind))
+            self.lv[name] = items
+            return out + self.block(rest, env, ind, final)
+        if (isinstance(s, ast.Assign) and len(s.targets) == 1 and isinstance(s.targets[0], ast.Name)
+                and self.mentions_vector(s.value, env)):
+            name = s.targets[0].id
+            v = self.vector_value(s.value, env)
+            env = env.copy()
+            env.kinds[name] = v.kind
+            return f"{ind}let {name} : {VEC_TY[v.kind]} := {v.code}\n" + self.block(rest, env, ind, final)
         if (isinstance(s, ast.Assign) and len(s.targets) == 1 and isinstance(s.targets[0], ast.Subscript)
                 and isinstance(s.targets[0].value, ast.Name) and env.kinds.get(s.targets[0].value.id) in ("A", "A2")
                 and s.targets[0].value.id not in env.pending):
@@ -465,6 +623,24 @@ class FnTranslator:
         """`while cond: body` -> whileFuel fuel cond body state, state = variables assigned in the body that exist before it"""
         if s.orelse:
             raise Unsupported(f"line {s.lineno}: while/else")
+        brk = [i for i, st_ in enumerate(s.body) if isinstance(st_, ast.If) and len(st_.body) == 1 and isinstance(st_.body[0], ast.Break)
+               and not st_.orelse]
+        if brk and "brk__" not in env.kinds:
+            # while C: A; if c: break; B   ==   brk = False; while (not brk) and C: A; if c: brk = True else: B
+            i = brk[0]
+            mk = lambda src: ast.parse(src).body[0]
+            flag = mk("brk__ = True")
+            new_if = ast.If(test=s.body[i].test, body=[flag], orelse=list(s.body[i + 1:]) or [ast.Pass()])
+            new_test = ast.BoolOp(op=ast.And(), values=[ast.UnaryOp(op=ast.Not(), operand=ast.Name(id="brk__", ctx=ast.Load())), s.test])
+            new_while = ast.While(test=new_test, body=list(s.body[:i]) + [new_if], orelse=[])
+            init = mk("brk__ = False")
+            for n_ in (new_while, init):
+                ast.copy_location(n_, s)
+                ast.fix_missing_locations(n_)
+            return self.block([init, new_while] + list(rest), env, ind, final)
+        for st_ in ast.walk(ast.Module(body=s.body, type_ignores=[])):
+            if isinstance(st_, ast.Break):
+                raise Unsupported(f"line {s.lineno}: break in an unsupported position")
         assigned = self.assigned_names(s.body)
         for st in ast.walk(ast.Module(body=s.body, type_ignores=[])):
             if (isinstance(st, ast.Call) and isinstance(st.func, ast.Attribute) and st.func.attr == "append"
@@ -886,7 +1062,9 @@ SCHED_SIGS = {
     "ltf_plan": dict(SCHED_BASE, f_arr="LR", fres_arr="LR", b_arr="LR", L_arr="LZ", K_arr="LZ", O_arr="LR", D_arr="LZ", navg_arr="LZ"),
     "new_ltf_plan": dict(SCHED_BASE, f="LR", r="LR", b="LR", L="LZ", K="LZ", alpha="R", j="Z", k_stage2="Z", dftlen_crossover="Z"),
 }
-SCHED_RETURNS = {"ltf_plan": ["f_arr", "fres_arr", "b_arr", "L_arr", "K_arr"], "new_ltf_plan": ["f", "r", "b", "L", "K"]}
+SCHED_SIGS["vectorized_ltf_plan"] = dict(SCHED_BASE, f_out="LR", r_out="LR", L_out="LZ", K_out="LZ")
+SCHED_RETURNS = {"ltf_plan": ["f_arr", "fres_arr", "b_arr", "L_arr", "K_arr"], "new_ltf_plan": ["f", "r", "b", "L", "K"],
+                 "vectorized_ltf_plan": ["f_out", "r_out", "L_out", "K_out"]}
 
 
 def _starts_function(fn: ast.FunctionDef) -> ast.FunctionDef:
@@ -943,13 +1121,14 @@ def gen_sched(repo: str = REPO) -> Tuple[str, List[str]]:
     fns = parse_functions(path)
     out = HEADER.format(src="speckit/schedulers.py", sha=sha_of(path))
     errors: List[str] = []
-    for name in ("ltf_plan", "new_ltf_plan"):
+    for name in ("ltf_plan", "new_ltf_plan", "vectorized_ltf_plan"):
         try:
             if name not in fns:
                 raise Unsupported("function not found")
             tr = FnTranslator(fns[name], SCHED_SIGS[name], {}, name + "_walk")
             tr.param_order = SCHED_PARAMS
             tr.stop_after_while = SCHED_RETURNS[name]
+            tr.vector_mode = name == "vectorized_ltf_plan"
             text, _ = tr.translate()
             out += text + "\n"
         except Unsupported as ex:
